@@ -190,6 +190,7 @@ type gateMsg struct {
 	// not a completion: the handler itself pushes a request to the client with ITS OWN context (through
 	// jrpc2.ServerFromContext) and then goes back to waiting for its gate
 	push       bool
+	detached   bool // the push runs in the background under context.WithoutCancel(ctx); the handler carries on
 	pushN      int
 	pushWantID bool
 	pushMethod string
@@ -268,6 +269,26 @@ func (r *srvRun) handler(ctx context.Context, req *jrpc2.Request) (any, error) {
 	r.log.obs("start\t%s\t%s", hexf([]byte(p)), b01(ctx.Err() != nil))
 	m := <-g
 	for m.push {
+		if m.detached {
+			n, wantID, method, params := m.pushN, m.pushWantID, m.pushMethod, m.pushParams
+			dctx := context.WithoutCancel(ctx)
+			go func() {
+				var prm any
+				if params != "" {
+					prm = json.RawMessage(params)
+				}
+				var rsp *jrpc2.Response
+				var err error
+				if wantID {
+					rsp, err = jrpc2.ServerFromContext(dctx).Callback(dctx, method, prm)
+				} else {
+					err = jrpc2.ServerFromContext(dctx).Notify(dctx, method, prm)
+				}
+				r.logPushRet(n, wantID, rsp, err)
+			}()
+			m = <-g
+			continue
+		}
 		// the handler awaits a push of its own (C09: "a notification handler may itself await a callback")
 		srv := jrpc2.ServerFromContext(ctx)
 		if srv != r.srv {
@@ -616,6 +637,27 @@ func (r *srvRun) handlerPush(p string, wantID bool, method, params string) {
 	}
 	r.mu.Unlock()
 	g <- gateMsg{push: true, pushN: n, pushWantID: wantID, pushMethod: method, pushParams: params}
+	r.settleEnv()
+}
+
+// handlerPushDetached makes the running handler with params p start a callback in the background under a context
+// that carries its inbound request but not its cancellation (context.WithoutCancel), and go on waiting for its gate.
+func (r *srvRun) handlerPushDetached(p string, method, params string) {
+	r.nops++
+	n := r.nops
+	r.log.item("env\tcallpush\t%d\t%s\t%s\t%s", n, b01(true), hexf([]byte(method)), hexf([]byte(params)))
+	r.mu.Lock()
+	g := r.gates[p]
+	r.cbctx[n] = &mctx{done: make(chan struct{})}
+	r.mu.Unlock()
+	g <- gateMsg{push: true, detached: true, pushN: n, pushWantID: true, pushMethod: method, pushParams: params}
+	r.settleEnv()
+}
+
+// tick lets the bubble's clock advance: the scenario sleeps, every goroutine being blocked, so that any timer
+// the code under test may have set fires.
+func (r *srvRun) tick() {
+	time.Sleep(11 * time.Second)
 	r.settleEnv()
 }
 
